@@ -23,7 +23,7 @@ theorem rollGone_delete (path : Path) : RollGone (fun p f d => deleteRoll p f d)
       simp only [hg] at h
       have := (Prod.mk.inj h).2
       subst this
-      exact Disk.get?_erase_self d path
+      exact DiskL.get?_erase_self d path
 
 theorem finalStep_gone (comp : Compression) (codec : Bytes → Bytes) (file dst : Path) (dm d' : Disk)
     (hne : dst ≠ file) (h : finalStep comp codec file dst dm = .ok d') : d'.get? file = none := by
@@ -39,8 +39,8 @@ theorem finalStep_gone (comp : Compression) (codec : Bytes → Bytes) (file dst 
     | some c =>
       simp only [hg] at h
       have : d' = (dm.erase file).set dst c := by injection h with h; exact h.symm
-      rw [this, Disk.get?_set_ne _ _ _ _ (fun e => hne e.symm)]
-      exact Disk.get?_erase_self dm file
+      rw [this, DiskL.get?_set_ne _ _ _ _ (fun e => hne e.symm)]
+      exact DiskL.get?_erase_self dm file
   | gzip =>
     cases hg : dm.get? file with
     | none => simp [hg] at h
@@ -48,7 +48,7 @@ theorem finalStep_gone (comp : Compression) (codec : Bytes → Bytes) (file dst 
       simp only [hg] at h
       have : d' = (dm.set dst (codec c)).erase file := by injection h with h; exact h.symm
       rw [this]
-      exact Disk.get?_erase_self _ file
+      exact DiskL.get?_erase_self _ file
   | zstd =>
     cases hg : dm.get? file with
     | none => simp [hg] at h
@@ -56,7 +56,7 @@ theorem finalStep_gone (comp : Compression) (codec : Bytes → Bytes) (file dst 
       simp only [hg] at h
       have : d' = (dm.set dst (codec c)).erase file := by injection h with h; exact h.symm
       rw [this]
-      exact Disk.get?_erase_self _ file
+      exact DiskL.get?_erase_self _ file
 
 /-- a successful run of steps ending in `final` ends with a successful final step -/
 theorem runSteps_final (r : RollerCfg) (file : Path) (fault : Nat → Bool) (l : List Step) (k : Nat) (d : Disk)
@@ -100,7 +100,7 @@ theorem rollGone_fixedWindow (r : RollerCfg) (path : Path) (hbase : r.nameOf r.b
         simp only [hg] at h
         have := (Prod.mk.inj h).2
         subst this
-        exact Disk.get?_erase_self d path
+        exact DiskL.get?_erase_self d path
   · simp only [hc, if_false, steps] at h
     obtain ⟨dm, hfin⟩ := runSteps_final r path fault _ 0 d x d' h
     exact finalStep_gone _ _ _ _ _ _ hbase hfin
@@ -149,6 +149,6 @@ theorem moveFile_get_other (src dst q : Path) (d : Disk) (h1 : q ≠ src) (h2 : 
   | none => rfl
   | some c =>
     simp only
-    rw [Disk.get?_set_ne _ _ _ _ h2, Disk.get?_erase_ne _ _ _ h1]
+    rw [DiskL.get?_set_ne _ _ _ _ h2, DiskL.get?_erase_ne _ _ _ h1]
 
 end Log4rs.Rolling
